@@ -34,7 +34,10 @@ const (
 	ParamsBcn  = "params.bcn"
 	ParamsStr  = "params.stream"
 	AuthzGrant = "authz.grant"
-	FeeGrantOp = "feegrant.grant"
+	// BankSendEnabled: the bank's per-denomination transfer switch (MsgSetSendEnabled by the governance authority;
+	// Flag = enabled). Only meaningful inside a proposal.
+	BankSendEnabled = "bank.sendenabled"
+	FeeGrantOp      = "feegrant.grant"
 )
 
 // Op is one message of a transaction. References to entities are resolved by
